@@ -18,6 +18,7 @@ Reference (from the statement):
     no nest -> only the newest handle of this call is present, the handle it displaced is gone;
   * exists-but-not-a-directory -> ValueError; missing -> skipped.
 """
+import functools
 import os
 import shutil
 import tempfile
@@ -102,10 +103,39 @@ class Rec(Handle):
         return '<Rec rule%d call%d %s>' % (self.rule, self.call, self.path)
 
 
-def make_factory(rule_index, state):
-    def factory(path, *args, **kwargs):
-        return Rec(rule_index, state['call'], path, args, kwargs)
-    return factory
+FACTORY_KINDS = ['function', 'class', 'partial', 'callable-object']
+
+
+def _record(rule_index, state, path, *args, **kwargs):
+    return Rec(rule_index, state['call'], path, args, kwargs)
+
+
+class Maker:
+    """A factory that is an object with __call__ (it has no __name__)."""
+
+    def __init__(self, rule_index, state):
+        self.rule_index = rule_index
+        self.state = state
+
+    def __call__(self, path, *args, **kwargs):
+        return _record(self.rule_index, self.state, path, *args, **kwargs)
+
+
+def make_factory(rule_index, state, kind='function'):
+    """The rule's factory - any callable.  Every kind records (path, *args, **kwargs) in a Rec."""
+    if kind == 'function':
+        def factory(path, *args, **kwargs):
+            return _record(rule_index, state, path, *args, **kwargs)
+        return factory
+    if kind == 'class':
+        class RecOfRule(Rec):
+            def __init__(self, path, *args, **kwargs):
+                Rec.__init__(self, rule_index, state['call'], path, args, kwargs)
+        return RecOfRule
+    if kind == 'partial':
+        return functools.partial(_record, rule_index, state)
+    assert kind == 'callable-object'
+    return Maker(rule_index, state)
 
 
 # --------------------------------------------------------------------------------------------- drawing
@@ -317,17 +347,19 @@ def oracle(sp, rmap, root, tree, rules, call, nest, trim, prev, when):
 
 # --------------------------------------------------------------------------------------------- harness
 def h_populate(sp, bits=(), present=('res',), rule_dirs=('res',), exts=((), ('.txt',)), n_rules=(1,),
-               opts='call', extras=1, styles=False, second=None, mids=()):
+               opts='call', extras=1, styles=False, second=None, mids=(), factories=1):
     # ---- 1. all decisions, before any file-system work
     tree = draw_tree(sp, set(bits), set(present))
     nr = n_rules[sp.choose(len(n_rules), 'n-rules')]
     rules = []
+    kind0 = sp.choose(factories, 'factory-kind')       # rule i uses kind (kind0 + i) mod 4
     for i in range(nr):
         d = rule_dirs[sp.choose(len(rule_dirs), 'rule%d.dir' % i)]
         e = exts[sp.choose(len(exts), 'rule%d.exts' % i)]
         a, kw = EXTRAS[sp.choose(extras, 'rule%d.extras' % i)]
         direct = bool(styles and sp.choose(2, 'rule%d.direct' % i))
-        rules.append(dict(dir=d, exts=tuple(e), args=a, kwargs=kw, direct=direct))
+        rules.append(dict(dir=d, exts=tuple(e), args=a, kwargs=kw, direct=direct,
+                          kind=FACTORY_KINDS[(kind0 + i) % len(FACTORY_KINDS)]))
     ck, kk, nest, trim = draw_opts(sp, opts, 'call0')
     root_at_call = bool(styles and sp.choose(2, 'root-at-call'))
     calls = [(kk, nest, trim, None)]
@@ -360,14 +392,14 @@ def h_populate(sp, bits=(), present=('res',), rule_dirs=('res',), exts=((), ('.t
         sp.note('DirectoryResourcePopulator(%s%s)' % ('<root>/nowhere' if root_at_call else '<root>', ''.join(
             ', %s=%r' % kv for kv in ck.items())))
         for i, r in enumerate(rules):
-            fac = make_factory(i, state)
+            fac = make_factory(i, state, r['kind'])
             if r['direct']:
                 pop.rules.append(DirectoryPopulatorRule(r['dir'], fac, list(r['args']), r['exts'],
                                                         dict(r['kwargs'])))
             else:
                 pop.add_rule(r['dir'], fac, *r['args'], file_exts=r['exts'], **r['kwargs'])
-            sp.note('rule %d: %r file_exts=%r args=%r kwargs=%r%s' % (
-                i, r['dir'], r['exts'], r['args'], r['kwargs'], ' (rule object appended)' if r['direct'] else ''))
+            sp.note('rule %d: %r factory=<%s> file_exts=%r args=%r kwargs=%r%s' % (
+                i, r['dir'], r['kind'], r['exts'], r['args'], r['kwargs'], ' (rule object appended)' if r['direct'] else ''))
         rmap = ResourceMap()
         prev = snapshot(sp, rmap, 'initially')
         for ci, (kw, nest_i, trim_i, added) in enumerate(calls):
@@ -401,6 +433,7 @@ def h_populate(sp, bits=(), present=('res',), rule_dirs=('res',), exts=((), ('.t
                 raised = ex
             if rejected is not None:
                 sp.cover('not-a-directory')
+                sp.cover('not-a-directory:factory-' + rules[rejected]['kind'])
                 sp.check(raised is not None, 'notdir-valueerror',
                          '%s: rule %d names the regular file %r; population went through without ValueError' % (
                              when, rejected, NOTDIR))
@@ -413,6 +446,8 @@ def h_populate(sp, bits=(), present=('res',), rule_dirs=('res',), exts=((), ('.t
             # vacuity tags
             if any(r['dir'] == MISSING or (r['dir'] in KIND and r['dir'] not in tree) for r in rules):
                 sp.cover('missing-skipped')
+            for ri in {ri for ri, _ in inst}:
+                sp.cover('built-by:' + rules[ri]['kind'])
             if trim_i:
                 sp.cover('trim')
             if ('nest_on_conflict' in ck and kw.get('nest_on_conflict') is None) or (
@@ -472,6 +507,8 @@ HARNESSES = {
 }
 
 ALL_DIRS = ('res', 'res2', MISSING, NOTDIR)
+FACTORY_TAGS = (['built-by:' + k for k in FACTORY_KINDS] + ['not-a-directory:factory-' + k for k in FACTORY_KINDS]
+                + ['not-a-directory', 'missing-skipped', 'file-under-two-rules', 'clash-nest', 'clash-replace'])
 FALLBACK_TAGS = ['fallback-after-override:%s:built-%s' % (o, b)
                  for o in ('nest_on_conflict', 'trim_extensions') for b in (True, False)]
 EVERY_BIT = ['res'] + FULL_BITS + ['other', 'other/x']
@@ -483,6 +520,9 @@ TIERS = {
         ('rules', dict(bits=('res/a.png', 'res/sub/a.txt', 'res2/c.txt'),
                        present=('res', 'res/a.txt', 'res/sub', 'res2', 'other', 'other/x'),
                        rule_dirs=ALL_DIRS, n_rules=(1, 2))),
+        # every kind of factory (function, class, functools.partial, object with __call__) x every rule list
+        ('rules', dict(present=('res', 'res/a.txt', 'res/a.png', 'res2', 'res2/c.txt'), rule_dirs=ALL_DIRS,
+                       n_rules=(1, 2), factories=4), dict(required=FACTORY_TAGS)),
         # names: several dots, a directory with an extension, a rule on a nested directory
         ('names', dict(bits=('res/a.tar.gz', 'res/d.txt', 'res/d.txt/e.txt', 'res/a.png', 'res/sub/a.txt'),
                        present=('res', 'res/a.txt', 'res/sub'), rule_dirs=('res', 'res/sub'))),
@@ -502,6 +542,9 @@ TIERS = {
         # every candidate tree below res/res2 x every ordered pair of rules
         ('rules', dict(bits=['res'] + FULL_BITS, present=('other', 'other/x'), rule_dirs=ALL_DIRS + ('res/sub',),
                        n_rules=(2,))),
+        ('rules', dict(bits=('res/a.png', 'res/sub/a.txt', 'res2/c.txt'),
+                       present=('res', 'res/a.txt', 'res/sub', 'res2', 'other', 'other/x'),
+                       rule_dirs=ALL_DIRS, n_rules=(1, 2), factories=4), dict(required=FACTORY_TAGS)),
         ('names', dict(bits=('res/a.txt', 'res/a.png', 'res/a.tar.gz', 'res/noext', 'res/d.txt',
                              'res/d.txt/e.txt', 'res/sub', 'res/sub/a.txt', 'res/sub/a.png'),
                        present=('res',), rule_dirs=('res', 'res/sub'), n_rules=(1, 2))),
@@ -544,13 +587,16 @@ BOUNDS = {
              'rules over {res,res2,missing,regular file} x 2 filters x nest x trim; names: a.tar.gz, directory '
              'd.txt/, rule on res/sub; passing: options at construction x per call (None/True/False, omitted or '
              'explicit None), root at construction or per call, 4 extra-argument shapes, add_rule or rule object; '
+             'factories: all lists of 1-2 rules x 2 filters x nest x trim x 4 factory kinds (function, class, '
+             'functools.partial, object with __call__) on one tree; '
              'twice: 8 trees, second population with fresh options, optionally after adding res/z.txt; same populator: '
              'options at construction x explicit override in call 1 x every per-call form (omitted/None/True/False) '
              'in call 2',
     'thorough': 'trees: all 513 trees over the 12 design bits (res/, res/a.txt, res/a.png, res/noext, res/sub/, '
                 'res/sub/a.txt, res/sub/deep/, res/sub/deep/b.txt, res2/, res2/c.txt, other/, other/x) x every '
                 'single rule over {res,res2,missing,regular file,res/sub} x 2 filters x nest x trim; rules: 171 '
-                'trees x every ordered pair of such rules x nest x trim; names: 240 trees with a.tar.gz, d.txt/'
+                'trees x every ordered pair of such rules x nest x trim; factories: 8 trees x all lists of 1-2 rules over 4 directories x 2 filters x nest x trim x 4 factory '
+                'kinds; names: 240 trees with a.tar.gz, d.txt/'
                 'e.txt, sub/a.png x 1-2 rules over {res,res/sub}; passing as quick plus a second call with every '
                 'per-call option form (None/True/False each, None omitted or explicit); twice: 57 trees x 1-2 rules over {res,res/sub} x options x '
                 '{nothing, +res/z.txt, +res/sub/a.png, +res/a.png} x options of the second call',
@@ -572,6 +618,8 @@ ASSUMPTIONS = [
     'the state of the map after a ValueError rejection is not specified and not inspected; rules before the '
     'rejected one may or may not have been applied',
     'the factory receives a path that resolves (realpath) to the file; its textual form is free',
+    'the rule\'s factory is any callable: function, class, functools.partial and an object with __call__ (no '
+    '__name__) are tried; with two rules the second uses the next kind in that list',
     'handle.parent / handle.key back-links are C11, not checked here',
     'an option that is omitted or None in a call takes the value given at CONSTRUCTION (class docs), also when '
     'an earlier call of the same populator overrode it',
